@@ -524,7 +524,7 @@ func nativePkgNames(pf *PropFile, cfg *Config) []string {
 }
 
 func writeEvidence(pf *PropFile, tier string, seed int, evs []harnessEvidence, samples []interface{}, wall float64, nViol int, inconclusive []string, w *World) {
-	states, trans, obl, dis, queries := 0, 0, 0, 0, 0
+	states, trans, obl, dis, queries, triv := 0, 0, 0, 0, 0, 0
 	solverS := 0.0
 	assume := map[string]bool{}
 	for _, a := range pf.Assumptions {
@@ -536,6 +536,7 @@ func writeEvidence(pf *PropFile, tier string, seed int, evs []harnessEvidence, s
 		trans += e.Forks + e.Paths
 		obl += e.Obligations
 		dis += e.Discharged
+		triv += e.Trivial
 		queries += e.Queries
 		solverS += e.SolverS
 		for f := range e.Functions {
@@ -546,7 +547,7 @@ func writeEvidence(pf *PropFile, tier string, seed int, evs []harnessEvidence, s
 		}
 	}
 	if len(samples) == 0 {
-		samples = []interface{}{"no obligations discharged in this run"}
+		samples = []interface{}{"no obligation of this run needed a solver query (all were decided on concrete values along the explored paths)"}
 	}
 	var as []string
 	for a := range assume {
@@ -567,7 +568,8 @@ func writeEvidence(pf *PropFile, tier string, seed int, evs []harnessEvidence, s
 		"trusted_base":                  pf.TrustedBase,
 		"inconclusive":                  inconclusive,
 		"exhaustive":                    false,
-		"explanation":                   "bounded symbolic execution of the real SSA of /repo's working tree; states = explored paths, transitions = solver-decided forks + path completions; every obligation is pc ∧ ¬assert decided by z3 (unsat = holds for all values within the bounds listed per harness)",
+		"discharged_concretely":         triv,
+		"explanation":                   fmt.Sprintf("bounded symbolic execution of the real SSA of /repo's working tree; states = explored paths, transitions = forks (solver-decided branches, input-range and scheduler choices) + path completions; an obligation is pc ∧ ¬assert: %d of %d obligations of this run were decided on concrete values (no solver variable reached them on that path: the verdict is by exhaustive enumeration of the forked choices within the bounds), the others by the SMT solver (unsat = holds for all values of the solver variables within the bounds listed per harness); %d solver queries in total incl. branch feasibility", triv, obl, queries),
 	}
 	if w != nil {
 		cov["ssa_load_s"] = w.loadS
